@@ -67,7 +67,10 @@ DeepVerdicts(r) ==
                                  <<"C11", "weighing a covenant of " \o (IF r.fam = "cost-long-flat" THEN "very many instructions" ELSE "deeply nested loops") \o " killed the process (" \o r.status \o ")">>} ELSE {})
   \cup (IF r.status = "ok" /\ r.weight # FromInt(r.k + 1) THEN {<<"C11", "covenant weight differs from the specification">>, <<"C05", "covenant weight differs from the specification">>,
                                                                   <<"C12", "the weight of a very long covenant computed from its bytes is not the weight of its instructions (decoding does not consume the whole input)">>} ELSE {})
-  \cup (IF r.status = "ok" /\ r.ms > 20000 THEN {<<"C11", "weighing a covenant took more than 20 seconds">>} ELSE {})
+  \* cost of weighing: the same quadratic model as for the in-process records (steps of the weigher, a deterministic counter), n = k + 1 instructions;
+  \* wall-clock time is only a hang guard (the child is killed after 15 minutes: status "timeout")
+  \cup (IF r.status = "ok" /\ Gt(r.work, Add(MulSmall(Mul(FromInt(r.k + 1), FromInt(r.k + 1)), WEIGH_C1), FromInt(16)))
+        THEN {<<"C11", "weighing cost super-quadratic in program length">>} ELSE {})
 \* deeply nested values, run in a child process.  KNOWN FINDING (not repaired): cloning / dropping a vector nested tens of thousands deep
 \* recurses once per level and exhausts the stack; tagged so that known_findings.json can list exactly this family
 DeepValVerdicts(r) ==
